@@ -352,3 +352,103 @@ func (c *Ctx) stmtAfterEnclosing(fd *ast.FuncDecl, st ast.Stmt) ast.Stmt {
 	walk(fd.Body.List)
 	return result
 }
+
+func init() {
+	registerRule("supplied-cache-kept", 1, "the cache a caller supplies is the cache the expansion runs with, whatever its implementation: only a nil cache is replaced by the default one", ruleSuppliedCacheKept)
+	registerRule("store-outside-nil-guard", 3, "a decoder that allocates a map on first use stores the element outside the `map == nil` branch: inside it, only the first element is kept", ruleStoreOutsideNilGuard)
+}
+
+// ruleSuppliedCacheKept (C18): on the effect normal form of the cache defaulter (found by role: ResolutionCache ->
+// ResolutionCache), every path on which the parameter is known to be non-nil returns that very parameter, and no
+// path decides on its dynamic type.
+func ruleSuppliedCacheKept(c *Ctx) {
+	const rule = "supplied-cache-kept"
+	f := c.cacheDefaulter()
+	fd := c.decl(f)
+	if fd == nil || fd.Body == nil {
+		c.undecided(rule, "cache-defaulter", token.NoPos, "cache defaulter not found by role")
+		return
+	}
+	fn := c.funcName(fd)
+	c.saw(fn)
+	param := c.paramObj(fd, 0)
+	paths, unsup := c.simulate(fd, func(g *types.Func) bool { return false })
+	if unsup != "" || param == nil {
+		c.undecided(rule, fn, fd.Pos(), "outside the fragment the effect normal form supports: "+unsup)
+		return
+	}
+	ok, why := true, ""
+	kept := false
+	for _, p := range paths {
+		nonNil, typed := false, false
+		for _, cd := range p.conds {
+			if b, isB := cd.v.(svBin); isB && b.op == token.NEQ && !cd.neg {
+				if q, isP := b.x.(svPath); isP && q.root == param && len(q.steps) == 0 {
+					if _, isNil := b.y.(svNil); isNil {
+						nonNil = true
+					}
+				}
+			}
+			if _, isOpaque := cd.v.(svOpaque); isOpaque {
+				typed = true
+			}
+		}
+		returnsParam := len(p.rets) == 1 && svEqual(p.rets[0], svPath{root: param})
+		if returnsParam {
+			kept = true
+		}
+		if (nonNil || typed) && !returnsParam && ok {
+			ok = false
+			why = "a cache supplied by the caller is replaced by the default one on a path where it is not nil (for instance because it is not of the built-in type): documents the caller pre-loaded are fetched again, and results depend on which cache implementation was passed"
+		}
+	}
+	if !kept && ok {
+		ok, why = false, "the cache defaulter never hands back the cache it was given"
+	}
+	c.ob(rule, fn, fd.Pos(), ok, why)
+}
+
+// ruleStoreOutsideNilGuard (C01/C07): in every function reachable from a decoder, an element store m[k] = v is
+// not control-dependent on m == nil for that same m.
+func ruleStoreOutsideNilGuard(c *Ctx) {
+	const rule = "store-outside-nil-guard"
+	for _, fd := range c.reachableFrom("UnmarshalJSON", "GobDecode", "fromMap") {
+		fn := c.funcName(fd)
+		ord := 0
+		ast.Inspect(fd.Body, func(n ast.Node) bool {
+			as, ok := n.(*ast.AssignStmt)
+			if !ok {
+				return true
+			}
+			for _, l := range as.Lhs {
+				ix, isIx := unparen(l).(*ast.IndexExpr)
+				if !isIx {
+					continue
+				}
+				if _, isMap := c.typeOf(ix.X).Underlying().(*types.Map); !isMap {
+					continue
+				}
+				// only stores under a decoded (non-constant) key: filling a map member by member
+				if tv, isC := c.Info.Types[ix.Index]; isC && tv.Value != nil {
+					continue
+				}
+				ord++
+				c.saw(fn)
+				base := exprString(unparen(ix.X))
+				bad := false
+				for _, cl := range c.literalsAt(fd, as) {
+					be, isB := unparen(cl.e).(*ast.BinaryExpr)
+					if !isB || !(be.Op == token.EQL && !cl.neg || be.Op == token.NEQ && cl.neg) {
+						continue
+					}
+					if isNilIdent(c, be.Y) && exprString(unparen(be.X)) == base || isNilIdent(c, be.X) && exprString(unparen(be.Y)) == base {
+						bad = true
+					}
+				}
+				c.ob(rule, fmt.Sprintf("%s:%s#%d", fn, base, ord), as.Pos(), !bad,
+					"the element is stored only on the path where "+base+" was still nil: once the map exists, further members are silently dropped")
+			}
+			return true
+		})
+	}
+}
